@@ -9,8 +9,8 @@
   upper bound of axis `i` at index `i + dim`).
   Transcendental: `pw23 x = x^(2/3)` in Miser's allocation is a parameter.
   Vegas: the re-initialisation blocks (`init ≤ 0/1/2`) over a record of the function-local
-  statics; the sampling/refinement iterations are not modelled executable (decided by the
-  class-D/A/B correspondence), only the per-axis sample formula (`vegasRc`, `vegasX`).
+  statics; `Rebin` as coded; the sampling/refinement iterations are not modelled executable
+  (decided by the class-D/A/B correspondence), only the per-axis sample formula (`vegasRc`, `vegasX`).
 -/
 import LpModel.Basic
 import LpModel.C18.MT19937
@@ -93,23 +93,29 @@ structure Split where
   siglb : Rat
   sigrb : Rat
 
+/-- one axis of the search for the bisection axis (body of the `for j` loop after pre-sampling) -/
+def splitStep (pw23 : Rat → Rat) (pre : List (List Rat × Rat)) (region : List Rat) (dim : Nat)
+    (acc : Option (Rat × Split)) (j : Nat) : Option (Rat × Split) :=
+  match sideRange pre j (rmid region dim j) true, sideRange pre j (rmid region dim j) false with
+  | some (mnl, mxl), some (mnr, mxr) =>
+    if mxl > mnl ∧ mxr > mnr then
+      let sl := pw23 (mxl - mnl); let sr := pw23 (mxr - mnr)
+      match acc with
+      | some (sumb, _) => if sl + sr ≤ sumb then some (sl + sr, ⟨j, sl, sr⟩) else acc
+      | none => some (sl + sr, ⟨j, sl, sr⟩)
+    else acc
+  | _, _ => acc
+
+/-- fallback `jb = (ndim·iran)/175000` when no axis qualifies -/
+def splitResult (dim iran : Nat) : Option (Rat × Split) → Split
+  | some (_, s) => s
+  | none => ⟨(dim * iran) / 175000, 1, 1⟩
+
 /-- choice of the bisection axis: the last `j` with the smallest `sigl + sigr` among the axes that
     show a variation on both sides; `TINY`/`BIG` floors are omitted (they act only below 1e-30);
     fallback `jb = (ndim·iran)/175000` when no axis qualifies -/
 def chooseSplit (pw23 : Rat → Rat) (pre : List (List Rat × Rat)) (region : List Rat) (dim iran : Nat) : Split :=
-  let best := (List.range dim).foldl (fun (acc : Option (Rat × Split)) j =>
-    match sideRange pre j (rmid region dim j) true, sideRange pre j (rmid region dim j) false with
-    | some (mnl, mxl), some (mnr, mxr) =>
-      if mxl > mnl ∧ mxr > mnr then
-        let sl := pw23 (mxl - mnl); let sr := pw23 (mxr - mnr)
-        match acc with
-        | some (sumb, _) => if sl + sr ≤ sumb then some (sl + sr, ⟨j, sl, sr⟩) else acc
-        | none => some (sl + sr, ⟨j, sl, sr⟩)
-      else acc
-    | _, _ => acc) none
-  match best with
-  | some (_, s) => s
-  | none => ⟨(dim * iran) / 175000, 1, 1⟩
+  splitResult dim iran ((List.range dim).foldl (splitStep pw23 pre region dim) none)
 
 /-- C++ `int(x)`: truncation toward zero -/
 def truncInt (x : Rat) : Int := if x ≥ 0 then x.floor else -((-x).floor)
@@ -183,6 +189,46 @@ def vegasRc (xi : Nat → Rat) (ia : Nat) (xn : Rat) : Rat :=
 
 def vegasX (lo dx rc : Rat) : Rat := lo + rc * dx
 
+/-! ### Vegas: `Rebin` as coded (row `j` of the grid as `xi : Nat → Rat`, the weights as `r : Nat → Rat`,
+    `len` = allocated size NDMX of `r` and of the row) -/
+
+/-- `while(rc > dr) dr += r[(++k) - 1];`  `none`: the loop would read `r[len]` (out of bounds);
+    the fuel `len + 1` passed by `rebinLoop` is never exhausted before that -/
+def rebinWhile (rc : Rat) (r : Nat → Rat) (len : Nat) : Nat → Nat → Rat → Option (Nat × Rat)
+  | 0, _, _ => none
+  | fuel + 1, k, dr =>
+    if rc > dr then (if k < len then rebinWhile rc r len fuel (k + 1) (dr + r k) else none)
+    else some (k, dr)
+
+/-- first `for` loop of `Rebin`, `n` iterations left, with the locals `k, dr, xo` threaded; returns
+    `xin[i], xin[i+1], …`.  `none`: `k = 0` after the `while` (the C++ then reads `xi[j][-1]`; happens
+    iff `rc ≤ 0` or `rc` is NaN) or the `while` ran off `r`. -/
+def rebinLoop (rc : Rat) (r xi : Nat → Rat) (len : Nat) : Nat → Nat → Rat → Rat → Option (List Rat)
+  | 0, _, _, _ => some []
+  | n + 1, k, dr, xo =>
+    match rebinWhile rc r len (len + 1) k dr with
+    | none => none
+    | some (k', dr') =>
+      if k' = 0 then none else
+      let xo' := if k' > 1 then xi (k' - 2) else xo
+      let xn := xi (k' - 1)
+      let dr'' := dr' - rc
+      match rebinLoop rc r xi len n k' dr'' xo' with
+      | none => none
+      | some rest => some ((xn - (xn - xo') * dr'' / r (k' - 1)) :: rest)
+
+/-- the row after the copy-back loop and `xi[j][nd-1] = 1.0` (cells `≥ nd` keep their old value) -/
+def rebinRow (nd : Nat) (xin : List Rat) (xi : Nat → Rat) : Nat → Rat :=
+  fun i => if i < nd - 1 then xin.getD i 0 else if i = nd - 1 then 1 else xi i
+
+/-- `Rebin(rc, nd, r, xin, xi, j)`: the new row `j`; `none` also for `nd = 0` (write to `xi[j][-1]`)
+    and `nd > len` -/
+def rebin (rc : Rat) (nd : Nat) (r xi : Nat → Rat) (len : Nat) : Option (Nat → Rat) :=
+  if nd = 0 ∨ nd > len then none else
+  match rebinLoop rc r xi len (nd - 1) 0 0 0 with
+  | none => none
+  | some xin => some (rebinRow nd xin xi)
+
 /-- the scalars among the function-local statics that survive between calls -/
 structure VegasScalars where
   mds : Int
@@ -229,5 +275,58 @@ def vegasInitScalars (s : VegasScalars) (init : Int) (ndim : Nat) (ncall : Int) 
     { s with mds := mds, nd := nd, ng := ng, npg := npg, calls := calls, dxg := dxg * xnd, dv2g := dv2g, xnd := xnd,
              xjac := 1 / calls * vol, ndo := nd }
   else s
+
+/-! ### Vegas: the arrays among the function-local statics -/
+
+/-- `xn = (kg[j] − u)·dxg + 1` -/
+def vegasXn (kg : Int) (u dxg : Rat) : Rat := ((kg : Rat) - u) * dxg + 1
+
+/-- `ia[j] = max(min(int(xn), NDMX), 1)` -/
+def vegasIa (xn : Rat) : Nat := (max (min (truncInt xn) 50) 1).toNat
+
+/-- the arrays that survive between calls and are read by the iterations (`xi[j][i]`, `d[i][j]`,
+    `di[i][j]` with the C++ index order).  `xin` is local to `Rebin` in this model (`rebinLoop`
+    returns it); `ia, x, dt` are written inside one sample / one refinement before they are read
+    there and are not carried. -/
+structure VegasArrays where
+  xi : Nat → Nat → Rat
+  r : Nat → Rat
+  dx : Nat → Rat
+  d : Nat → Nat → Rat
+  di : Nat → Nat → Rat
+  kg : Nat → Int
+
+/-- `for(j = 0; j < cnt; j++) Rebin(rc, nd, r, xin, xi, j);` (NDMX = 50 cells per row) -/
+def rebinRows (rc : Rat) (nd : Nat) (r : Nat → Rat) : Nat → (Nat → Nat → Rat) → Option (Nat → Nat → Rat)
+  | 0, xi => some xi
+  | j + 1, xi =>
+    match rebinRows rc nd r j xi with
+    | none => none
+    | some xi1 =>
+      match rebin rc nd r (xi1 j) 50 with
+      | none => none
+      | some row => some (fun j' => if j' = j then row else xi1 j')
+
+/-- the array part of the `init ≤ 0` and `init ≤ 2` blocks; `ndo` = value of the static after the
+    `init ≤ 0` block, `nd` = value computed by the `init ≤ 2` block (`vegasInitScalars`).
+    `none`: `ndim > MXDIM = 10` (out of bounds) or a failing `Rebin`. -/
+def vegasInitArrays (a : VegasArrays) (init : Int) (ndim : Nat) (region : List Rat) (ndo nd : Nat) : Option VegasArrays :=
+  if ndim > 10 then none else
+  let a1 : VegasArrays := if init ≤ 0 then { a with xi := fun j i => if j < ndim ∧ i = 0 then 1 else a.xi j i } else a
+  if init ≤ 2 then
+    let a2 : VegasArrays := { a1 with dx := fun j => if j < ndim then at_ region (j + ndim) - at_ region j else a1.dx j }
+    if nd ≠ ndo then
+      let r : Nat → Rat := fun i => if i < max nd ndo then 1 else a2.r i
+      match rebinRows ((ndo : Rat) / (nd : Rat)) nd r ndim a2.xi with
+      | none => none
+      | some xi => some { a2 with r := r, xi := xi }
+    else some a2
+  else some a1
+
+/-- head of every iteration: `kg[j] = 1; d[i][j] = di[i][j] = 0` for `j < ndim`, `i < nd` -/
+def vegasIterPrologue (a : VegasArrays) (ndim nd : Nat) : VegasArrays :=
+  { a with kg := fun j => if j < ndim then 1 else a.kg j,
+           d := fun i j => if j < ndim ∧ i < nd then 0 else a.d i j,
+           di := fun i j => if j < ndim ∧ i < nd then 0 else a.di i j }
 
 end Lp.C14
